@@ -178,7 +178,15 @@ fn bfs_buffer(ctx: &mut Ctx, queue: bool, cap: usize, vals: &[i32], state_cap: u
     frontier.push_back(vec![]);
     let all_ops = ops(cap, vals);
     let mut complete = true;
+    // a transition budget per (kind, capacity): never reached on the unchanged tree (its fixpoint needs < 10^5
+    // transitions); it bounds the degenerate case in which history-dependent bookkeeping makes every history a state
+    let budget: u64 = if ctx.tier_thorough { 3_000_000 } else { 150_000 };
+    let t_start = ctx.transitions;
     while let Some(hist) = frontier.pop_front() {
+        if ctx.transitions - t_start > budget {
+            complete = false;
+            break;
+        }
         ctx.states += 1;
         ctx.max_depth = ctx.max_depth.max(hist.len() as u64);
         for op in &all_ops {
@@ -211,8 +219,6 @@ fn bfs_buffer(ctx: &mut Ctx, queue: bool, cap: usize, vals: &[i32], state_cap: u
                         Verdict::fail(&site, &format!("contents:{}", opname(op)), format!("live items {:?} but the bounded sequence holds {:?}", live_pos, live_ref))
                     } else if size > cap {
                         Verdict::fail(&site, "size>capacity", format!("size {} capacity {}", size, cap))
-                    } else if !is_mutating(op) && before != after {
-                        Verdict::fail(&site, &format!("read-mutates:{}", opname(op)), format!("{} -> {}", before, after))
                     } else {
                         Verdict::Pass
                     };
@@ -220,7 +226,10 @@ fn bfs_buffer(ctx: &mut Ctx, queue: bool, cap: usize, vals: &[i32], state_cap: u
                         ctx.nontrivial_mark(&okey);
                     }
                     ctx.record_if(rec, id, &okey, v, descr);
-                    if is_mutating(op) && !seen.contains(&after) {
+                    // every operation whose internal state (derived Debug text) differs afterwards leads to a successor --
+                    // also a read: bookkeeping that a read updates is not a violation in itself (it is not observable),
+                    // but whatever the read left behind is explored further
+                    if (is_mutating(op) || before != after) && !seen.contains(&after) {
                         if seen.len() >= state_cap {
                             complete = false;
                         } else {
@@ -608,7 +617,9 @@ pub fn run(ctx: &mut Ctx) {
             let maxcap = if ctx.tier_thorough { 5 } else { 4 };
             for queue in [true, false] {
                 for cap in 1..=maxcap {
-                    bfs_buffer(ctx, queue, cap, &[1, 2], 400_000);
+                    // on the unchanged tree the fixpoint has ~10^3 states; bookkeeping fields that depend on the history
+                    // (operation counters) make every history a state of its own: the cap bounds that case
+                    bfs_buffer(ctx, queue, cap, &[1, 2], if ctx.tier_thorough { 200_000 } else { 20_000 });
                 }
             }
         }
